@@ -15,8 +15,28 @@ COMMON_ASSUMPTIONS = [
     "uninterpreted functions (sound for validity)",
 ]
 
-LEVEL = {}
-EXPLANATION = {}
+LEVEL = {p: "other" for p in ("C03", "C04", "C06", "C07", "C08", "C09", "C10", "C14", "C15", "C16", "C17", "C18", "C19", "C20")}
+_MIX = ("Two layers, reported separately in this file: (1) obligations = verification conditions generated from /repo's source by pyvc and "
+        "discharged by z3/cvc5 (coverage.obligations / discharged / scripts); where a script name says 'bounded: ...' the record structure "
+        "(number of cards / contests / candidates) is fixed and every leaf value is symbolic, so those obligations are complete for that "
+        "structure only; (2) bounded_standins = exhaustive small-scope run-time contract checking of the real functions under CPython "
+        "(coverage.bounded_standins: bound, cases, failures). Nothing bounded is counted as proved. ")
+EXPLANATION = {p: _MIX for p in LEVEL}
+# bounded stand-ins (native exhaustive small-scope contract checking, /verif/bounded/cases.py): property -> [(case, clause filter)]
+# a filter is a tuple of substrings: only failures whose clause contains one of them count for that property (None = all)
+BOUNDED_CASES = {
+    "C04": [("raire", ("does not raise", "list of assertions", "empty list exactly", "holds on the CVRs", "every elimination order"))],
+    "C15": [("raire", ("largest difficulty",))],
+    "C07": [("consistent_sampling", None), ("assign_sample_nums", None)],
+    "C10": [("sampling_escalation", None)],
+    "C08": [("make_phantoms", None)],
+    "C14": [("raire_readers", ("both readers", "load_contests_from_raire"))],
+    "C16": [("interleave_values", None), ("find_sample_size", None)],
+    "C17": [("manifests", None)],
+    "C18": [("merge_cvrs", None), ("raire_readers", ("from_raire",))],
+    "C19": [("dominion_read_cvrs", None)],
+    "C20": [("irv_tree", None)],
+}
 BOUNDED = {}
 EXTRA_TRUSTED = {
     "C01": ["(V) Ville's inequality for non-negative supermartingales started at 1 (textbook theorem, not proved here)",
